@@ -25,8 +25,10 @@ type faultKind struct {
 	// transport-level
 	transport string
 	err       error
-	status    int
-	body      string
+	// the client disconnects at that moment: the request context ends
+	clientGivesUp bool
+	status        int
+	body          string
 	// answer-level: rewrite element pos of the decoded answer array (or the whole body)
 	whole func(b []byte) []byte
 	elem  func(el map[string]interface{}) (map[string]interface{}, bool)
@@ -107,6 +109,7 @@ func faultKinds(skip int) []faultKind {
 		{name: "transport-error-before", signal: true, transport: "ErrBefore"},
 		{name: "transport-error-after", signal: true, transport: "ErrAfter"},
 		{name: "transport-context-canceled", signal: true, transport: "ErrAfter", err: context.Canceled},
+		{name: "client-gives-up-during-call", signal: true, transport: "ErrBefore", err: context.Canceled, clientGivesUp: true},
 		{name: "transport-deadline-exceeded", signal: true, transport: "ErrBefore", err: context.DeadlineExceeded},
 		{name: "status-500-with-body", signal: true, transport: "Status", status: 500, body: `{"errors":[{"message":"internal"}]}`},
 		{name: "status-404-empty", signal: true, transport: "Status", status: 404, body: ``},
@@ -323,6 +326,10 @@ func scenFLT(s *sched.Sim, cfg Config, res *Result) {
 			case "ReadErr":
 				return &simnet.Fault{Kind: "ReadErr", At: 5}
 			}
+			if k.clientGivesUp {
+				// every call of this request in flight or still to come fails with it
+				env.clientGivesUp(strings.SplitN(m.Tag, "#", 2)[0])
+			}
 			return &simnet.Fault{Kind: k.transport, Err: k.err}
 		}
 		return &simnet.Fault{Kind: k.name, Mutate: func(b []byte) []byte {
@@ -435,7 +442,16 @@ func scenFLT(s *sched.Sim, cfg Config, res *Result) {
 						raw = env.post(tag, []clientReq{reqOf(op)}, false)
 						got = raw.Single
 					} else {
+						// the elements of a batch run side by side: half of these cases under a drawn
+						// schedule instead of the canonical one (the fault then hits the site-th call of
+						// the faulted element in that schedule)
+						if s.T.Bool(1, 2) {
+							s.Policy = drawPolicy(s)
+							s.Policy.NoSearch = nil
+							res.Probe("flt.batch-case-under-drawn-schedule")
+						}
 						raw = env.post(tag, []clientReq{reqOf(op), reqOf(clean)}, true)
+						s.Policy = sched.Policy{Deviation: 0}
 						if len(raw.Batch) == 2 {
 							got, sibling = raw.Batch[0], raw.Batch[1]
 						}
@@ -483,7 +499,8 @@ func scenFLT(s *sched.Sim, cfg Config, res *Result) {
 								break
 							}
 						}
-						if sibling != nil {
+						// (a client that went away took the whole HTTP request with it, siblings included)
+						if sibling != nil && !k.clientGivesUp {
 							if len(sibling.Errors) > 0 || compareData(cleanWant, sibling) != "" {
 								fail("sibling-affected", "the clean operation in the same batch was affected: %s errors=%v", compareData(cleanWant, sibling), sibling.Errors)
 							}
